@@ -275,7 +275,18 @@ class Interp:
         self._comp(n.generators, 0, fr, lambda f: out.append(self.eval(n.elt, f)), n)
         return out
 
+    def _comp_hook(self, n, fr):
+        """a comprehension whose (single) iterable is an abstract collection: the collection's comp_ hook builds the abstract result"""
+        if len(n.generators) == 1:
+            src = self.eval(n.generators[0].iter, fr)
+            if hasattr(src, 'comp_'):
+                return True, src.comp_(self, n, fr)
+        return False, None
+
     def e_SetComp(self, n, fr):
+        ok, r = self._comp_hook(n, fr)
+        if ok:
+            return r
         out = set()
         self._comp(n.generators, 0, fr, lambda f: out.add(self.eval(n.elt, f)), n)
         return out
@@ -284,6 +295,9 @@ class Interp:
         return self.e_ListComp(n, fr)      # eager evaluation (stated: generator expressions are evaluated eagerly)
 
     def e_DictComp(self, n, fr):
+        ok, r = self._comp_hook(n, fr)
+        if ok:
+            return r
         out = {}
 
         def add(f):
@@ -1234,6 +1248,8 @@ class Interp:
                 if not self.branch(self.eval(s.test, fr), f'L{s.lineno}.while'):
                     raise PathEnd('guard false in body path')
             v0 = spec.var(self, env, g) if spec.var else None
+            # ghost state of the loops whose body is being executed (for postconditions of a return from inside a loop)
+            fr.locals['__active_loop_ghosts__'] = {**fr.locals.get('__active_loop_ghosts__', {}), getattr(s, '_ordinal', 0): g}
             pre_env = dict(env)
             try:
                 self.exec_block(s.body, fr)
@@ -1321,7 +1337,8 @@ class Interp:
         kwargs = kwargs or {}
         if isinstance(f, InterpFunction):
             c = self.reg.by_nested.get(f.qualname) if self.reg.by_nested else None
-            if c is not None and self.reg.under_proof != ('nested', f.qualname) and c.use_contract_at(self, args, kwargs):
+            # (the function under proof is entered through invoke(), so a call seen here is a call site - also a recursive one)
+            if c is not None and c.use_contract_at(self, args, kwargs):
                 from .contracts import _apply
                 if f.is_async:
                     return CoroVal(lambda: _apply(self, c, f, args, kwargs, node), f.qualname)
